@@ -116,7 +116,8 @@ var locals = []string{"a", "b", "c", "v", "w", "n", "s", "t", "err", "buf", "ok"
 
 type g struct {
 	t      *tape.Tape
-	usable []Import // imports that can be referenced by name
+	refd   map[string]bool // local names of imports the generated code already refers to
+	usable []Import        // imports that can be referenced by name
 	nfunc  int
 	ntype  int
 	nvar   int
@@ -131,6 +132,10 @@ func (g *g) q() string {
 		return g.pick(locals)
 	}
 	im := g.usable[g.t.Draw(len(g.usable))]
+	if g.refd == nil {
+		g.refd = map[string]bool{}
+	}
+	g.refd[im.LocalName()] = true
 	return im.LocalName() + "." + g.pick(exported)
 }
 
@@ -269,7 +274,14 @@ func (g *g) stmt(depth int) string {
 }
 
 func (g *g) decl() string {
-	switch g.t.Draw(12) {
+	switch g.t.Draw(14) {
+	case 12:
+		g.ntype++
+		return fmt.Sprintf("// G%d is generic.\ntype G%d[T %s, U interface{ ~int | %s }] struct {\nitems []T\nother U\n}", g.ntype, g.ntype, g.q(), g.q())
+	case 13:
+		g.ntype++
+		g.nfunc++
+		return fmt.Sprintf("type H%d[K comparable, V %s] map[K]V\n\nfunc (h H%d[K, V]) get%d(k K) V { return h[k] }", g.ntype, g.q(), g.ntype, g.nfunc)
 	case 10:
 		// trailing /* */ comments on specs with fewer cells than their neighbours (column alignment)
 		g.nvar++
@@ -297,7 +309,7 @@ func (g *g) decl() string {
 		return fmt.Sprintf("const (\nc%da = iota // %s\nc%db\n\n// %s\nc%dc = %s\n)", g.nvar, g.comment(), g.nvar, g.comment(), g.nvar, g.q())
 	case 5:
 		g.nfunc++
-		return fmt.Sprintf("func g%d[T any, U %s](x T, y U) %s[T] {\nreturn %s[T, U]{}\n}", g.nfunc, g.q(), g.q(), g.q())
+		return fmt.Sprintf("func g%d[T any, U %s](p0 T, p1 U) %s[T] {\nreturn %s[T, U]{}\n}", g.nfunc, g.q(), g.q(), g.q()) // parameter names must not shadow a package name
 	case 6:
 		g.nfunc++
 		g.ntype++
@@ -476,8 +488,16 @@ func Source(t *tape.Tape, opt Options) Spec {
 	}
 	if opt.UseAll && len(g.usable) > 0 {
 		sb.WriteString("var (\n")
+		n := 0
 		for _, im := range g.usable {
+			if g.refd[im.LocalName()] && t.Bool(2, 3) {
+				continue // already referred to by a declaration above (possibly only there, e.g. in a type constraint)
+			}
 			fmt.Fprintf(sb, "_ = %s.%s\n", im.LocalName(), g.pick(exported))
+			n++
+		}
+		if n == 0 {
+			sb.WriteString("_ = 0\n")
 		}
 		sb.WriteString(")\n\n")
 	}
